@@ -2,7 +2,7 @@
 import json
 from . import common as C
 
-HEADER = 'From WM Require Import Base.Prelude Simple.Model Simple.Monitor Simple.Throttle Simple.Deadline Corr.C19.\n'
+HEADER = 'From WM Require Import Base.Prelude Simple.Model Simple.Monitor Simple.Throttle Simple.Deadline Simple.Extra Corr.C19 Corr.C19x.\n'
 ST = ['Unsettled', 'Acked', 'Nacked']
 
 TRUSTED_BASE = [
@@ -14,6 +14,7 @@ TRUSTED_BASE = [
     'deadlines never expire during a run: Timeout values are whole hours, the observed Deadline() is rounded to hours; IEEE rounding is excluded by dyadic multipliers and intervals < 2^40 ns',
     'Simple/Model.v is hand-written from message/router/middleware/{timeout,correlation,recoverer,ignore_errors,instant_ack,throttle,circuit_breaker,delay_on_error,retry}.go and tied to them by this check',
     'a metadata key holding "" is not distinguished from a missing key (Metadata.Get); produced messages of one call are distinct objects',
+    'RandomFail / RandomPanic: the draw rand.Float32() <= p is an oracle bit of the model; in the runs math/rand is seeded before every invocation and the draw is mirrored with rand.New(rand.NewSource(k)) (same generator, go 1.23)',
 ]
 ASSUMPTIONS = [
     'DelayOnError schedule theorem: 0 <= InitialInterval <= MaxInterval, Multiplier = num/den >= 1; the closed form min(Initial*m^(k-1), Max) is proved where the products are whole nanoseconds, otherwise the per-step law (multiply, round down to a whole ns, cap) and the upper bound',
@@ -197,6 +198,37 @@ def run_once(ctx, res, binary, seed, n, thr, witness, tag):
             res.violations.append(dict(signature='C19/throttle-rate',
                 what='handler starts through one Throttle value are closer together than the configured rate allows (n starts in a window => n-2 periods fit; per worker k starts in between => k-1 periods apart)',
                 case=ths[ti]))
+    # Duplicator / RandomFail / RandomPanic between two chains of simple middlewares
+    xs = data.get('extra') or []
+    if xs:
+        if strings[10] != 'random fail occurred' or strings[11] != 'random panic occurred':
+            raise C.CheckError('interned ids of the RandomFail / RandomPanic texts moved')
+        def xterm(c):
+            x = c['x']; init = c['init']
+            m0 = '(MSt %s [] %s %s %s)' % (meta(init['meta']), C.coq_bool(init['done']), ST[init['settle']], 'None' if init['dl'] is None else '(Some %s)' % Z(init['dl']))
+            script = lst('(Call %s %s)' % (lst(action(a) for a in s_['pre']), outcome(s_['res'])) for s_ in c['script'])
+            invs = lst('(Inv %s %s %s)' % (lst(event(e) for e in i['trace']), outcome(i['res']), vstate(i['after'])) for i in c['invs'])
+            one = {'dup': lambda h: 'XDup', 'rfail': lambda h: '(XRandFail %s)' % C.coq_bool(h), 'rpanic': lambda h: '(XRandPanic %s)' % C.coq_bool(h)}[x['k']]
+            return '(XC %s %s %s %s %s %s)' % (lst(mw(m) for m in x['pre'] or []), lst(one(h) for h in x['hits'] or []),
+                                               lst(mw(m) for m in x['post'] or []), script, m0, invs)
+        for c in xs:
+            c['mws'] = c['mws'] or []; c['script'] = c['script'] or []; c['invs'] = c['invs'] or []
+            res.evaluations += 1
+            res.count('extra=%s' % c['x']['k']); res.count('extra_p=%s' % c['x']['p'])
+            for h in c['x']['hits'] or []: res.count('extra_draw_hit=%s' % h)
+            res.nontrivial.add(('extra', c['x']['k'], tuple(m['k'] for m in c['x']['pre'] or []), tuple(m['k'] for m in c['x']['post'] or []),
+                                tuple(sorted({s_['res']['k'] for s_ in c['script']})), tuple(c['x']['hits'] or [])))
+        r = C.coq_eval(pid, 'extra_%s' % tag, HEADER + 'Definition cases : list x_case := %s.\n' % lst(xterm(c) for c in xs),
+                       [('R_xmis', 'x_mismatches repaired cases'), ('R_xvio', 'x_violations cases')])
+        for i in r['R_xvio']:
+            c = xs[i]
+            res.violations.append(dict(signature='C19/extra-%s:calls-result-or-context' % c['x']['k'],
+                what='chain %s around a scripted handler: rejected by the acceptor of Simple/Extra.v (handler called as often as %s alone calls it, error / panic value through the outer chain, context restored)' % (chain_name(c), c['x']['k']),
+                case=describe(c, strings)))
+        for i in r['R_xmis']:
+            c = xs[i]
+            res.mismatches.append(dict(kind='Corr.C19x.x_mismatch (Simple/Extra.v xstack repaired vs the real Duplicator / RandomFail / RandomPanic), chain %s' % chain_name(c),
+                                       explained_by_violation=i in r['R_xvio'], case=describe(c, strings)))
     # a deadline visible during the call: handlers blocking on Done() under small Timeouts (wall-clock LOWER bounds only)
     dls = data.get('deadline') or []
     if dls:
@@ -234,7 +266,7 @@ def run(ctx):
     res.rule = ('random chains of 0..3 real middlewares (Timeout, CorrelationID, Recoverer, IgnoreErrors, InstantAck, Throttle, closed CircuitBreaker, DelayOnError, real Retry with at most one per chain) '
                 'built once per group and shared by 1/2/4 messages in flight together, around a scripted handler (returns 0..3 fresh messages and/or the consumed one, with/without own correlation id; '
                 'fails with plain / pkg-errors-wrapped / %w-wrapped errors; panics with string / error / nil; Acks, Nacks, sets metadata or cancels the base context first), invoked 1..8 times on the same '
-                'message object; a fifth of the groups are failure runs through DelayOnError with multipliers 1, 5/4, 3/2, 7/4, 2, 9/4, 3; plus 6 chains with small Timeouts (8..40 ms, alone, stacked, under the real Retry) around a handler that blocks on Done() (lower bounds, Err(), Deadline(), context restored alive afterwards); plus 5 runs of 12 messages through one Throttle value with 1..4 workers, the messages carrying live, already cancelled, deadline-passed, cancelled-while-waiting and deadline-expiring-while-waiting contexts (all live / all ended / interleaved). '
+                'message object; a fifth of the groups are failure runs through DelayOnError with multipliers 1, 5/4, 3/2, 7/4, 2, 9/4, 3; plus 160 chains pre ++ [Duplicator | RandomFail p | RandomPanic p] ++ post (pre, post 0..2 simple middlewares, p in {0, .25, .5, .75, 1}, the draw of math/rand seeded and mirrored per invocation), 1..3 invocations; plus 6 chains with small Timeouts (8..40 ms, alone, stacked, under the real Retry) around a handler that blocks on Done() (lower bounds, Err(), Deadline(), context restored alive afterwards); plus 5 runs of 12 messages through one Throttle value with 1..4 workers, the messages carrying live, already cancelled, deadline-passed, cancelled-while-waiting and deadline-expiring-while-waiting contexts (all live / all ended / interleaved). '
                 'non-trivial = a non-empty chain or a handler that does more than return nothing; distinct by (chain kinds in order, outcome kinds, panic value kinds, number of invocations, concurrent or not).')
     return res
 
